@@ -1344,9 +1344,20 @@ def est_oracle(p, R):
     return None
 
 
+def run_patient(ck, binary, script, timeout=300):
+    """ck.run_bin, but a wall-clock timeout is not a verdict: the programs are deterministic, so on a loaded machine (the
+    thorough tier's 2500-motion trees took > 300 s of wall time in the Lean EST driver at load 100) the same input is run once
+    more with six times the limit.  A run that still does not finish is reported as before."""
+    out, rc, err = ck.run_bin(binary, script, timeout=timeout)
+    if rc == "timeout":
+        ck.count("timeout-retry")
+        out, rc, err = ck.run_bin(binary, script, timeout=6 * timeout)
+    return out, rc, err
+
+
 def est_one(ck, hbin, p):
     """returns (what | None, kind, impl lines, model lines, R)"""
-    impl, rc, err = ck.run_bin(hbin, p.harness_script(), timeout=300)
+    impl, rc, err = run_patient(ck, hbin, p.harness_script())
     if impl is None or rc != 0:
         tail = " ".join((err or "").strip().splitlines()[-6:])[-600:]
         return "EST harness stopped (exit %s): %s" % (rc, tail), "crash", impl or [], [], {}
@@ -1355,7 +1366,7 @@ def est_one(ck, hbin, p):
         return "EST harness printed no script", "crash", impl, [], {}
     what = est_oracle(p, R)
     ds = p.config() + consumed + ["solve", "tree", "pdf", "path", "next"]
-    model, rc2, err2 = ck.run_bin(ck.driver(EST_DRIVER), ds, timeout=300)
+    model, rc2, err2 = run_patient(ck, ck.driver(EST_DRIVER), ds)
     if rc2 != 0 or model is None or len(model) < 5 or any(m == "bad-op" for m in model):
         return what or "EST driver failed rc=%s" % rc2, "spec" if what else "driver", impl, model or [], R
     m = model[-5:]
@@ -1612,7 +1623,7 @@ def projest_oracle(p, R):
 
 def projest_one(ck, hbin, p):
     """returns (what | None, kind, impl lines, model lines, R)"""
-    impl, rc, err = ck.run_bin(hbin, p.harness_script(), timeout=300)
+    impl, rc, err = run_patient(ck, hbin, p.harness_script())
     if impl is None or rc != 0:
         tail = " ".join((err or "").strip().splitlines()[-6:])[-600:]
         return "ProjEST harness stopped (exit %s): %s" % (rc, tail), "crash", impl or [], [], {}
@@ -1624,7 +1635,7 @@ def projest_one(ck, hbin, p):
             R["cells"] = l
     what = projest_oracle(p, R)
     ds = p.config() + consumed + ["solve", "cells", "pdf", "path", "next"]
-    model, rc2, err2 = ck.run_bin(ck.driver(PROJEST_DRIVER), ds, timeout=300)
+    model, rc2, err2 = run_patient(ck, ck.driver(PROJEST_DRIVER), ds)
     if rc2 != 0 or model is None or len(model) < 5 or any(m == "bad-op" for m in model):
         return what or "ProjEST driver failed rc=%s" % rc2, "spec" if what else "driver", impl, model or [], R
     m = model[-5:]
